@@ -14,6 +14,7 @@ import (
 	golog "log"
 	"math/rand"
 	"net"
+	"runtime"
 	"strings"
 	"sync"
 	"sync/atomic"
@@ -73,7 +74,33 @@ func c09StressLoop(t *testing.T, rec *vh.Rec, e *vEnv, rng *rand.Rand, withReloa
 	round := 0
 	for time.Now().Before(deadline) {
 		round++
-		key, msg, stats := c09StressRound(e, rng, withReload)
+		type rres struct {
+			key, msg string
+			stats    map[string]int64
+		}
+		done := make(chan rres, 1)
+		go func() {
+			k, m, st := c09StressRound(e, rng, withReload)
+			done <- rres{k, m, st}
+		}()
+		var key, msg string
+		var stats map[string]int64
+		select {
+		case r := <-done:
+			key, msg, stats = r.key, r.msg, r.stats
+		case <-time.After(60 * time.Second):
+			// a round takes well under a second; nothing moving for 60 s is a stall. Confirm with the
+			// goroutine dump: it must show goroutines of the package waiting on the registry lock.
+			buf := make([]byte, 1<<20)
+			buf = buf[:runtime.Stack(buf, true)]
+			dig := c09StackDigest(string(buf))
+			if strings.Contains(dig, "RWMutex") {
+				rec.Case(true, vh.Digest(fmt.Sprintf("stall-%d-%d-%d", vh.Seed(), sidx, round)), map[string]any{"round": round}, "stalled-round")
+				rec.Violation(t, "stall:registry-lock", map[string]any{"round": round, "with_reload": withReload}, "the pipeline stopped making progress for 60 s; goroutines blocked on the registry lock:\n%s", dig)
+				return
+			}
+			t.Fatalf("harness problem: stress round did not finish within 60 s and no lock wait is visible:\n%s", dig)
+		}
 		nontriv := stats["dups"] > 0 && stats["sweeps"] > 0 && stats["activations"] > 0
 		classes := []string{}
 		if nontriv {
